@@ -139,7 +139,7 @@ func c20() *core.Check {
 			li.IsSQLi(s)
 		},
 		ColdStartVerify: c20ColdVerify,
-		Rule: "all entries of the five live tables (read through the accessors after package initialisation) are checked against the well-formedness predicates; every entry of baseline/tables.json (snapshot of the pinned tree) must be present with the same classification; every baseline entry is additionally exercised through the real look-up path (isBlackTag / isBlackAttr per name, token class per keyword, every multi-word key through the folder's merge in four probe frames and with every white-space byte / comment between its words, every single-word key also between length-changing runes, glued to a 40-byte tail, and 65536 bytes behind an equally long word), once in the fresh process and once more after five look-alikes of every name went through the same look-ups; the tables are digested again at a second quiescent point after ~30 000 calls over the corpus, every tag, event and keyword, and must be unchanged. Before that, six fresh processes make their first look-ups from 16 goroutines at once and compare the tables with the baseline (a table sorted or normalised lazily on first use). Finite and enumerated completely. " +
+		Rule: "all entries of the five live tables (read through the accessors after package initialisation) are checked against the well-formedness predicates; every entry of baseline/tables.json (snapshot of the pinned tree) must be present with the same classification; every baseline entry is additionally exercised through the real look-up path (isBlackTag / isBlackAttr per name, token class per keyword, every multi-word key through the folder's merge in four probe frames and with every white-space byte / comment between its words, every single-word key also between length-changing runes, glued to a 40-byte tail, and 65536 bytes behind an equally long word, every function name inside back quotes and every dotted key as a qualifier before a further dot or back quote; every event, attribute and tag name through IsXSS with runs of 1-300 NULs inside the name), once in the fresh process and once more after five look-alikes of every name went through the same look-ups; the tables are digested again at a second quiescent point after ~30 000 calls over the corpus, every tag, event and keyword, and must be unchanged. Before that, six fresh processes make their first look-ups from 16 goroutines at once and compare the tables with the baseline (a table sorted or normalised lazily on first use). Finite and enumerated completely. " +
 			"Non-trivial = every table entry; distinct by table+key.",
 		Plan: func(tier string, seed uint64) []core.Unit { return []core.Unit{{Gen: "tables", Lo: 0, Hi: 1}} },
 		Gen: func(w *core.Worker, u core.Unit, emit func(core.Case)) {
@@ -284,6 +284,45 @@ func c20() *core.Check {
 				}
 				if !li.IsXSS("<a on" + strings.ToLower(n) + "=x>") {
 					bad("entry-unreachable", fmt.Sprintf("event %q is listed but <a on%s=x> is not detected", n, strings.ToLower(n)))
+				}
+				// the name as the tokenizer may hand it over: NULs (ignored by the
+				// look-up) after any of its bytes, 1 to 300 of them
+				name := "on" + strings.ToLower(n)
+				for _, run := range []int{1, 40, 45, 64, 300} {
+					at := 1 + (len(n)+run)%(len(name)-1)
+					in := "<a " + name[:at] + strings.Repeat("\x00", run) + name[at:] + "=x>"
+					if !li.IsXSS(in) {
+						bad("entry-unreachable", fmt.Sprintf("event %q is listed but %q (%d NULs inside the name) is not detected", n, in, run))
+						break
+					}
+				}
+			}
+			for n, ty := range base.Attrs {
+				if lt, ok := live.Attrs[n]; !ok || lt != ty || ty == 0 || len(n) < 2 {
+					continue
+				}
+				name := strings.ToLower(n)
+				for _, run := range []int{0, 1, 45, 64, 300} {
+					at := 1 + (len(n)+run)%(len(name)-1)
+					in := "<a " + name[:at] + strings.Repeat("\x00", run) + name[at:] + "=" + []string{"", "x", "javascript:x", "x", "onclick"}[ty%5] + ">"
+					if !li.IsXSS(in) {
+						bad("entry-unreachable", fmt.Sprintf("black attribute %q is listed with type %d but %q is not detected", n, ty, in))
+						break
+					}
+				}
+			}
+			for _, t := range base.Tags {
+				if !liveTag[t] || len(t) < 2 {
+					continue
+				}
+				name := strings.ToLower(t)
+				for _, run := range []int{1, 45, 64, 300} {
+					at := 1 + (len(t)+run)%(len(name)-1)
+					in := "<" + name[:at] + strings.Repeat("\x00", run) + name[at:] + ">"
+					if !li.IsXSS(in) {
+						bad("entry-unreachable", fmt.Sprintf("black tag %q is listed but %q is not detected", t, in))
+						break
+					}
 				}
 			}
 			// the same look-ups again after every name's look-alikes (same length with
@@ -504,6 +543,20 @@ func exerciseKeyword(k string, cls byte) string {
 			}
 			if !found {
 				return fmt.Sprintf("keyword %q (%q) is not classified as such %s", k, cls, pb.what)
+			}
+		}
+	}
+	if cls == 'f' && len(k) < 31 && !strings.ContainsAny(k, " `") {
+		// function names keep their class inside back quotes, and a dotted key is
+		// found as the qualifier in front of a further '.' or back quote
+		probes := []struct{ in, what string }{{"`" + lower + "`(1)", "inside back quotes"}}
+		if strings.Contains(k, ".") {
+			probes = append(probes, struct{ in, what string }{lower + ".x(1)", "as the qualifier before a further dot"}, struct{ in, what string }{lower + "`x`", "in front of a back-quoted name"})
+		}
+		for _, pb := range probes {
+			tr := li.VerifSQLTokens(pb.in, li.VerifSQLFlagQuoteNone|li.VerifSQLFlagAnsi)
+			if len(tr.Tokens) == 0 || !strings.EqualFold(tr.Tokens[0].Val, k) || tr.Tokens[0].Category != cls {
+				return fmt.Sprintf("function name %q is not classified as such %s (%q)", k, pb.what, pb.in)
 			}
 		}
 	}
